@@ -375,7 +375,7 @@ theorem scanOpts_choice {ps : List Param} (hok : paramsOk ps = true) (me : Str) 
     (rest : List Tok) (st : PState) :
     scanOpts me (optTable ps) (c.render ++ rest) st = scanOpts me (optTable ps) rest (st.addOpt c.p.name c.val) := by
   obtain ⟨hne, g, hres⟩ := resolve_choice hok hc
-  obtain ⟨hmem, hopt, hshort, hconv, _, hdd⟩ := hc
+  obtain ⟨hmem, hopt, hshort, hconv, _, hdd, hgl⟩ := hc
   have hT := optsOk_optTable hok
   cases hs : c.short with
   | some f =>
@@ -383,7 +383,14 @@ theorem scanOpts_choice {ps : List Param} (hok : paramsOk ps = true) (me : Str) 
     have hfind := findShort_of_mem hT hsp (f := f) rfl
     by_cases hk : c.p.kind = .flag
     · simp [Choice.render, Choice.tok, Choice.val, hs, hk, scanOpts, hfind, specOf]
-    · simp [Choice.render, Choice.val, hs, hk, scanOpts, hfind, specOf, hconv hk]
+    · cases hg : c.glued with
+      | none => simp [Choice.render, Choice.val, hs, hk, hg, scanOpts, hfind, specOf, hconv hk]
+      | some e =>
+        have hw : c.w.text ≠ dashdash := hgl (by simp [hg])
+        have hwalk : walk (optTable ps) c.tail (specOf c.p (some f)) (some c.w) [] = .done [] (some (c.p, some c.w)) := by
+          unfold walk
+          simp [OptSpec.valued, specOf, hk]
+        simp [Choice.render, Choice.val, hs, hk, hg, scanOpts, hfind, hwalk, PState.addFlags, hconv hk, hw]
   | none =>
     by_cases hk : c.p.kind = .flag
     · simp only [Choice.render, Choice.tok, hs, hk, if_true, List.cons_append, List.nil_append]
@@ -406,6 +413,134 @@ theorem scanOpts_render {ps : List Param} (hok : paramsOk ps = true) (me : Str) 
     rw [scanOpts_choice hok me (h c (by simp))]
     simpa [addOpts] using ih
 
+/-! ### several options in one single-dash string -/
+
+theorem addOpts_append (st : PState) (a b : List Choice) : addOpts st (a ++ b) = addOpts (addOpts st a) b := by
+  simp [addOpts, List.foldl_append]
+
+/-- a flag written by its letter: the letter finds the flag's option, which takes no value -/
+theorem okFlag_find {ps : List Param} (hok : paramsOk ps = true) {f : Choice} (hf : f.okFlag ps) :
+    findShort (optTable ps) f.letter = some (specOf f.p (some f.letter))
+    ∧ (specOf f.p (some f.letter)).valued = none ∧ (specOf f.p (some f.letter)).isHelp = false := by
+  obtain ⟨⟨_, hopt, hshort, _⟩, hk, hs⟩ := hf
+  cases hl : f.short with
+  | none => simp [hl] at hs
+  | some l =>
+    have hsp := spec_mem (hshort l hl) hopt
+    have := findShort_of_mem (optsOk_optTable hok) hsp (f := l) rfl
+    simp [Choice.letter, hl, this, OptSpec.valued, OptSpec.isHelp, specOf, hk]
+
+/-- an option written by its letter (flag or not) -/
+theorem ok_find {ps : List Param} (hok : paramsOk ps = true) {c : Choice} (hc : c.ok ps) (hs : c.short.isSome = true) :
+    findShort (optTable ps) c.letter = some (specOf c.p (some c.letter)) := by
+  obtain ⟨_, hopt, hshort, _⟩ := hc
+  cases hl : c.short with
+  | none => simp [hl] at hs
+  | some l =>
+    have hsp := spec_mem (hshort l hl) hopt
+    simpa [Choice.letter, hl] using findShort_of_mem (optsOk_optTable hok) hsp (f := l) rfl
+
+def flagSpecs (cs : List Choice) : List OptSpec := cs.map fun c => specOf c.p (some c.letter)
+
+/-- the walk over the flags of a cluster arrives at its last letter with all of them noted -/
+theorem walk_flags {ps : List Param} (hok : paramsOk ps = true) (lc : Char) (la : Option Word) (oc : OptSpec)
+    (hlast : findShort (optTable ps) lc = some oc) (tail : List (Char × Option Word)) :
+    ∀ (fs : List (Choice × Word)), (∀ x ∈ fs, x.1.okFlag ps) → ∀ (o : OptSpec), o.valued = none → ∀ (j : Word) (acc : List OptSpec),
+    walk (optTable ps) (fs.map (fun x => (x.1.letter, some x.2)) ++ ((lc, la) :: tail)) o (some j) acc
+      = walk (optTable ps) tail oc la (acc ++ o :: flagSpecs (fs.map (·.1)))
+  | [], _, o, ho, j, acc => by
+    rw [walk.eq_def]
+    simp [ho, hlast, flagSpecs]
+  | x :: fs, h, o, ho, j, acc => by
+    obtain ⟨hfx, hvx, _⟩ := okFlag_find hok (h x (by simp))
+    have ih := walk_flags hok lc la oc hlast tail fs (fun y hy => h y (List.mem_cons_of_mem _ hy))
+      (specOf x.1.p (some x.1.letter)) hvx x.2 (acc ++ [o])
+    rw [walk.eq_def]
+    simp only [ho, List.map_cons, List.cons_append, hfx]
+    rw [ih]
+    simp [flagSpecs, List.append_assoc]
+
+theorem addFlags_specs : ∀ (cs : List Choice), (∀ c ∈ cs, c.p.kind = .flag) → ∀ (st : PState),
+    st.addFlags (flagSpecs cs) = addOpts st cs
+  | [], _, st => rfl
+  | c :: cs, h, st => by
+    have ih := addFlags_specs cs (fun x hx => h x (List.mem_cons_of_mem _ hx)) (st.addOpt c.p.name (.flag true))
+    have hk := h c (by simp)
+    simp only [PState.addFlags, flagSpecs, addOpts, List.map_cons, List.foldl_cons, specOf, Choice.val, hk, if_true] at ih ⊢
+    exact ih
+
+theorem flagSpecs_noHelp (cs : List Choice) : (flagSpecs cs).any OptSpec.isHelp = false := by
+  simp [flagSpecs, OptSpec.isHelp, specOf]
+
+theorem scanOpts_item {ps : List Param} (hok : paramsOk ps = true) (me : Str) {it : Item} (hit : it.ok ps)
+    (rest : List Tok) (st : PState) :
+    scanOpts me (optTable ps) (it.render ++ rest) st = scanOpts me (optTable ps) rest (addOpts st it.choices) := by
+  cases it with
+  | one c => simpa [Item.render, Item.choices, addOpts] using scanOpts_choice hok me hit rest st
+  | cluster f jf fs c =>
+    obtain ⟨hf, hfs, hc, hcs⟩ := hit
+    obtain ⟨hff, hfv, _⟩ := okFlag_find hok hf
+    have hcf := ok_find hok hc hcs
+    have hflags : ∀ x ∈ f :: fs.map (·.1), x.p.kind = .flag := by
+      intro x hx
+      rcases List.mem_cons.mp hx with rfl | hx
+      · exact hf.2.1
+      · obtain ⟨y, hy, rfl⟩ := List.mem_map.mp hx
+        exact (hfs y hy).2.1
+    have hw := walk_flags hok c.letter c.lastArg _ hcf c.tail fs hfs _ hfv jf []
+    simp only [List.nil_append] at hw
+    have hspecs : specOf f.p (some f.letter) :: flagSpecs (fs.map (·.1)) = flagSpecs (f :: fs.map (·.1)) := rfl
+    rw [hspecs] at hw
+    obtain ⟨_, _, _, hconv, _, _, hgl⟩ := hc
+    by_cases hk : c.p.kind = .flag
+    · -- the last letter is a flag as well
+      have hend : walk (optTable ps) c.tail (specOf c.p (some c.letter)) c.lastArg (flagSpecs (f :: fs.map (·.1)))
+          = .done (flagSpecs (f :: (fs.map (·.1) ++ [c]))) none := by
+        rw [walk.eq_def]
+        simp [OptSpec.valued, specOf, hk, Choice.lastArg, flagSpecs]
+      have hall : ∀ x ∈ f :: (fs.map (·.1) ++ [c]), x.p.kind = .flag := by
+        intro x hx
+        rw [← List.cons_append] at hx
+        rcases List.mem_append.mp hx with hx | hx
+        · exact hflags x hx
+        · simp at hx; exact hx ▸ hk
+      have hwalk := hw.trans hend
+      simp only [Item.render, List.cons_append, scanOpts, hff, hwalk]
+      simp [hk, flagSpecs_noHelp, addFlags_specs _ hall, Item.choices]
+    · have hend : walk (optTable ps) c.tail (specOf c.p (some c.letter)) c.lastArg (flagSpecs (f :: fs.map (·.1)))
+          = .done (flagSpecs (f :: fs.map (·.1))) (some (c.p, c.lastArg)) := by
+        rw [walk.eq_def]
+        simp [OptSpec.valued, specOf, hk]
+      have hcv : c.val = .one c.a := by simp [Choice.val, hk]
+      have hadd : ∀ st : PState, (st.addFlags (flagSpecs (f :: fs.map (·.1)))).addOpt c.p.name (.one c.a)
+          = addOpts st (f :: (fs.map (·.1) ++ [c])) := by
+        intro st
+        rw [addFlags_specs _ hflags, ← List.cons_append, addOpts_append]
+        simp [addOpts, hcv]
+      have hwalk := hw.trans hend
+      cases hg : c.glued with
+      | some e =>
+        have hw' : c.w.text ≠ dashdash := hgl (by simp [hg])
+        have hla : c.lastArg = some c.w := by simp [Choice.lastArg, hk, hg]
+        simp only [Item.render, List.cons_append, scanOpts, hff, hwalk]
+        simp only [hla]
+        simp [hk, hg, flagSpecs_noHelp, hw', hconv hk, hadd, Item.choices]
+      | none =>
+        have hla : c.lastArg = none := by simp [Choice.lastArg, hk, hg]
+        simp only [Item.render, hk, hg, Option.isSome_none, Bool.false_eq_true, or_self, if_false, List.cons_append,
+          List.nil_append, scanOpts, hff, hwalk]
+        simp only [hla]
+        simp [flagSpecs_noHelp, hconv hk, hadd, Item.choices]
+
+theorem scanOpts_renderItems {ps : List Param} (hok : paramsOk ps = true) (me : Str) :
+    ∀ (l : List Item), (∀ it ∈ l, it.ok ps) → ∀ (rest : List Tok) (st : PState),
+    scanOpts me (optTable ps) (renderItems l ++ rest) st = scanOpts me (optTable ps) rest (addOpts st (itemChoices l))
+  | [], _, rest, st => by simp [renderItems, itemChoices, addOpts]
+  | it :: l, h, rest, st => by
+    have ih := scanOpts_renderItems hok me l (fun x hx => h x (List.mem_cons_of_mem _ hx)) rest (addOpts st it.choices)
+    simp only [renderItems, itemChoices, List.flatMap_cons, List.append_assoc] at ih ⊢
+    rw [scanOpts_item hok me (h it (by simp)), ih, addOpts_append]
+
 theorem addOpts_eq : ∀ (cs : List Choice) (st : PState), addOpts st cs = { st with opts := optEntries cs ++ st.opts }
   | [], st => by cases st; simp [addOpts, optEntries]
   | c :: cs, st => by
@@ -417,10 +552,10 @@ theorem addOpts_eq : ∀ (cs : List Choice) (st : PState), addOpts st cs = { st 
 
 /-! ### binding the positional run -/
 
-theorem bindWords_stop {r : List Tok} (st : PState) (h : startsWithWord r = false) : bindWords r st = .cont st r := by
+theorem bindWords_stop {r : List Tok} (st : PState) (h : startsRun r = false) : bindWords r st = .cont st r := by
   cases r with
   | nil => simp [bindWords]
-  | cons t r => cases t <;> simp_all [bindWords, startsWithWord]
+  | cons t r => cases t <;> simp_all [bindWords, startsRun]
 
 theorem bindWords_singles : ∀ {singles : List Param} {pargs : List PosArg}, posOk singles pargs →
     (∀ p ∈ singles, p.kind ≠ .varPositional) → ∀ (tail : List Param) (r : List Tok) (st : PState),
